@@ -44,7 +44,11 @@ logging.getLogger('ndn').setLevel(logging.CRITICAL + 1)      # failed registrati
 
 OK_REPLIES = ('ok', 'ok-text', '200-no-body')
 STATUS_REPLIES = ('400', '403-no-body', '404', '409', '500', '503-no-body', 'no-status')
-GARBAGE_REPLIES = ('garbage-content', 'garbage-empty', 'garbage-truncated', 'garbage-wrong-type')
+GARBAGE_REPLIES = ('garbage-content', 'garbage-empty', 'garbage-truncated', 'garbage-wrong-type',
+                   # a well-formed outer ControlResponse header around a broken inside (round 9, C17-seed14): a truncated
+                   # multi-octet Type / Length, a Length running past the end, a status code of 3 octets, an unknown critical type
+                   'garbage-inner-type-truncated', 'garbage-inner-length-truncated', 'garbage-inner-overrun',
+                   'garbage-inner-status-width', 'garbage-inner-critical-unknown')
 OTHER_REPLIES = ('nack-50', 'nack-150', 'timeout', 'bad-signature', 'disconnect')
 REPLIES = OK_REPLIES + STATUS_REPLIES + GARBAGE_REPLIES + OTHER_REPLIES
 PREFIXES = ('/a', '/app/service', '/8=%00/long/prefix/with/32=meta/seg=3', '/')
@@ -121,6 +125,16 @@ def reply_content(kind, prefix):
         return control_response(200, 'OK', prefix)[:-3]
     if kind == 'garbage-wrong-type':
         return b'\x66' + control_response(200, 'OK', prefix)[1:]
+    if kind == 'garbage-inner-type-truncated':
+        return bytes.fromhex('6501fd')
+    if kind == 'garbage-inner-length-truncated':
+        return bytes.fromhex('65046601c8fe')
+    if kind == 'garbage-inner-overrun':
+        return bytes.fromhex('65056601c8670a4f')
+    if kind == 'garbage-inner-status-width':
+        return bytes.fromhex('6505660300c8c8')
+    if kind == 'garbage-inner-critical-unknown':
+        return bytes.fromhex('65076601c86700e100')
     raise ValueError(kind)
 
 
